@@ -11,6 +11,9 @@ import (
 func init() {
 	register("C12", "Structural clause decided: (table) every SMP handler returns smpStateExpect1 on every path except its one full-success path, the abort helpers return (EXPECT1, abort message), an abort TLV resets to EXPECT1, and the only handlers that consume a message are those of the expecting state; (use-after-verify) every use of a peer SMP message — generating the reply, the final comparison, storing it in the waiting state, the success event — is behind the successful verifier of that message, whatever function it appears in; (verifiers) each verifier range-checks every group element of its message through the version's isGroupElement and checks every zero-knowledge proof with the specified index before accepting; (siblings) every implementation of otrVersion.isGroupElement implies the package-level range check; (dispatch) no dispatch on a nil SMP state; (parsing) each toSmpMessageN requires its element count; (user calls) a start in a running exchange sends the abort before the new first message, and Start/Provide establish the state machine first. Not decided: that a subsequent honest run succeeds; the number theory.",
 		func(a *An) {
+			a.smpStateWriters("W.smp-state")
+			a.zkpFormulas("P.zkp-formulas")
+			a.smpAcceptConditions("P.smp-accept")
 			a.smpTable("T.smp-table")
 			a.smpUseAfterVerify("G.smp-verify")
 			a.smpVerifiers("P.smp-verifiers")
@@ -391,3 +394,107 @@ func (a *An) smpUserCalls(rule string) {
 	}
 	R.Floor(rule, 6)
 }
+
+// smpAcceptConditions: which SMP TLVs are taken apart is decided by the TLV type and by the parsers of the individual
+// messages and by nothing else (no extra size or content test in front of them): the conditions on the accepting paths
+// of tlv.smpMessage are the reviewed ones.
+func (a *An) smpAcceptConditions(rule string) {
+	R := a.R
+	f := a.MustFn("(tlv).smpMessage")
+	if f == nil {
+		return
+	}
+	conds, complete := a.acceptConditions(f, 1)
+	var extra []string
+	for c := range conds {
+		ok := false
+		for _, pre := range []string{"(tlv.tlvType == ", "(tlv.tlvType != ", "toSmpMessage", "!toSmpMessage"} {
+			if strings.HasPrefix(c, pre) {
+				ok = true
+			}
+		}
+		if !ok {
+			extra = append(extra, c)
+		}
+	}
+	sort.Strings(extra)
+	R.Check(complete && len(conds) >= 6 && len(extra) == 0, rule, "tlv.smpMessage|conditions", "an SMP TLV is accepted by type and by its message parser only", a.C.Pos(f.Pos()),
+		fmt.Sprintf("%d conditions, complete=%v; additional: %s — an SMP message the honest peer sends (a long question, say) can be dropped before it is parsed, and the run never completes", len(conds), complete, strings.Join(extra, "; ")))
+}
+
+// zkpFormulas: each proof verifier returns the comparison of the *received* proof value with the recomputed hash, over
+// the specified products of the received values raised to the received exponents (no reduction, shadowing or
+// substitution of an operand).
+func (a *An) zkpFormulas(rule string) {
+	R := a.R
+	h := func(args string) string { return "hashMPIsBN(otrVersion.hash2Instance($v), $ix, " + args + ")" }
+	want := map[string]string{
+		"verifyZKP":  "eq($c, " + h("mulMod(modExpP(global:g1, $d), modExpP($gen, $c), global:p)") + ")",
+		"verifyZKP2": "eq($cp, " + h("mulMod(modExpP($g3, $d5), modExpP($pb, $cp), global:p), mulMod(mul(modExpP(global:g1, $d5), modExpP($g2, $d6)), modExpP($qb, $cp), global:p)") + ")",
+		"verifyZKP3": "eq($cp, " + h("mulMod(modExpP($g3, $d5), modExpP($pa, $cp), global:p), mulMod(mul(modExpP(global:g1, $d5), modExpP($g2, $d6)), modExpP($qa, $cp), global:p)") + ")",
+		"verifyZKP4": "eq($cr, " + h("mulMod(modExpP(global:g1, $d7), modExpP($g3a, $cr), global:p), mulMod(modExpP($qaqb, $d7), modExpP($ra, $cr), global:p)") + ")",
+	}
+	for _, name := range []string{"verifyZKP", "verifyZKP2", "verifyZKP3", "verifyZKP4"} {
+		f := a.MustFn(name)
+		if f == nil {
+			continue
+		}
+		rets := a.returnsOf(f)
+		if len(rets) != 1 {
+			R.Viol(rule, name+"|single-return", "the verifier is one comparison", a.C.Pos(f.Pos()), fmt.Sprintf("%d returns", len(rets)))
+			continue
+		}
+		call, ok := rets[0].Results[0].(*ssa.Call)
+		got := a.C.Term(rets[0].Results[0])
+		if ok && len(call.Call.Args) == 2 {
+			// render the variadic hash arguments element by element
+			if hc, isC := call.Call.Args[1].(*ssa.Call); isC && len(hc.Call.Args) == 3 {
+				var parts []string
+				for _, el := range a.C.variadicElems(hc.Call.Args[2]) {
+					parts = append(parts, a.C.Term(el))
+				}
+				got = a.F.callName(call) + "(" + a.C.Term(call.Call.Args[0]) + ", " + a.F.callName(hc) + "(" + a.C.Term(hc.Call.Args[0]) + ", " + a.C.Term(hc.Call.Args[1]) + ", " + strings.Join(parts, ", ") + "))"
+			}
+		}
+		R.Check(got == want[name], rule, name+"|formula", "verdict = eq(received proof value, hash(index, products of received values))", a.C.InstrPos(rets[0]), "it is "+got)
+	}
+}
+
+// smpStateWriters: the SMP state is moved by the state machine driver, the reset helpers and the abort handler only;
+// a received abort always resets it and tells the user, whatever state the machine is in.
+func (a *An) smpStateWriters(rule string) {
+	R := a.R
+	fld := a.MustField("smp", "state")
+	a.WhoMayWriteDirect(rule, fld, smpStateWriterFns...)
+	f := a.MustFn("(smpMessageAbort).receivedMessage")
+	if f == nil || fld == nil {
+		return
+	}
+	var reset, event ssa.Instruction
+	for _, b := range f.Blocks {
+		for _, in := range b.Instrs {
+			if st, ok := in.(*ssa.Store); ok {
+				if fa, isFA := st.Addr.(*ssa.FieldAddr); isFA && fieldOf(fa) == fld && strings.Contains(a.C.Term(st.Val), "smpStateExpect1") {
+					reset = in
+				}
+			}
+			if call, ok := in.(*ssa.Call); ok && a.F.callName(call) == "(*Conversation).smpEvent" && a.C.Term(call.Call.Args[1]) == a.MustConst("SMPEventAbort") {
+				event = in
+			}
+		}
+	}
+	ok := reset != nil && event != nil
+	if ok {
+		for _, r := range a.returnsOf(f) {
+			if !instrDominates(reset, r) || !instrDominates(event, r) {
+				ok = false
+			}
+		}
+	}
+	R.Check(ok, rule, "abort|unconditional", "a received abort resets the state machine to EXPECT1 and raises SMPEventAbort on every path", a.C.Pos(f.Pos()),
+		"a return is reachable without the reset or without the event: in some state the peer's abort is ignored and the next first message is refused as unexpected")
+}
+
+var smpStateWriterFns = []string{"(*Conversation).continueMessage", "(*Conversation).restartSMP", "(*smp).ensureSMP", "(*smp).wipe",
+	"(smp1Message).receivedMessage", "(smp2Message).receivedMessage", "(smp3Message).receivedMessage", "(smp4Message).receivedMessage",
+	"(smpMessageAbort).receivedMessage", "(smpStateExpect1).startAuthenticate", "(smpStateBase).startAuthenticate"}
